@@ -204,6 +204,9 @@ func runC04(c projCase) (bool, []string, error) {
 		labels = append(labels, "no_matching_field")
 	}
 	ftyp, ptyp := spec.Build(w.Target), spec.Build(c.Projected)
+	// recycled banks full of the same file's values: a field the projected target
+	// adds, or that the file lacks, must still come out zero
+	dirtyBanks(file, ftyp)
 	full, err := readWire(file, ftyp)
 	if err != nil {
 		return nt, labels, fmt.Errorf("full decode failed: %v", err)
